@@ -1,4 +1,5 @@
 import GeomV.C07.LemmasCost
+import GeomV.C07.LemmasJsonCost
 import GeomV.C07.Spec
 /-!
 # C07 — property theorems
@@ -159,5 +160,77 @@ theorem C07_hex_alloc (s : List Char) :
   refine ⟨key, ?_⟩
   simp only [Spec.allocOK, Spec.allocBound]
   exact decide_eq_true (by omega)
+
+
+/-! ## GeoJSON -/
+
+/-- outcome of `fromGeoJSON` in terms of what `doFromGeoJSON` raised -/
+theorem fromGeoJSON_res (g : Option (String × GoVal)) :
+    (fromGeoJSON g).res = (match (doFromGeoJSON g).res with
+      | .ok v => .ok v
+      | .error .invalidGeometry => .error (.err .invalid)
+      | .error (.unsupportedType _) => .error (.err .unsupported)
+      | .error (.runtimeError _) => .error (.err .runtime)
+      | .error (.nonError w) => .error (.panic ("interface conversion: " ++ w ++ " is not error"))) := rfl
+
+/-- **C07_json_guards.** For every non-nil `*Geometry` — ANY type string and ANY Go value in
+`Coordinates` (nil, numbers, strings, maps, ragged or wrongly nested arrays, typed slices, ints …) —
+`FromGeoJSON` returns a geometry, `InvalidGeometryError` or `UnsupportedGeometryError`. In particular
+no index expression of decode.go can go out of range: the `len(...) == 0` guards are sufficient. -/
+theorem C07_json_guards (typ : String) (c : GoVal) :
+    (∃ g, (fromGeoJSON (some (typ, c))).res = .ok g) ∨
+    (fromGeoJSON (some (typ, c))).res = .error (.err .invalid) ∨
+    (fromGeoJSON (some (typ, c))).res = .error (.err .unsupported) := by
+  rw [fromGeoJSON_res]
+  have h := raises_doFrom typ c
+  cases hr : (doFromGeoJSON (some (typ, c))).res with
+  | ok v => exact .inl ⟨v, rfl⟩
+  | error p =>
+    rcases h p hr with rfl | ⟨t, rfl⟩
+    · exact .inr (.inl rfl)
+    · exact .inr (.inr rfl)
+
+/-- **C07_json_total.** For EVERY `*Geometry` value, nil included, the deferred
+`recover(); err = e.(error)` of `FromGeoJSON` never itself panics: every value the decoder can raise
+implements `error`. So the call returns a geometry or a non-nil error; no panic leaves it. -/
+theorem C07_json_total (g : Option (String × GoVal)) (w : String) :
+    (fromGeoJSON g).res ≠ .error (.panic w) := by
+  cases g with
+  | none => simp [fromGeoJSON_res, doFromGeoJSON, panic]
+  | some tc =>
+    obtain ⟨typ, c⟩ := tc
+    rcases C07_json_guards typ c with ⟨g, h⟩ | h | h <;> rw [h] <;> simp
+
+/-- **C07_json_text_total.** For EVERY byte string, `geojson.Decode` returns a geometry or an error
+(a `json` error, `InvalidGeometryError` or `UnsupportedGeometryError`); no panic, and no runtime
+error either. -/
+theorem C07_json_text_total (bs : List UInt8) :
+    (∃ g, (decodeJSON bs).res = .ok g) ∨ (decodeJSON bs).res = .error (.err .json) ∨
+    (decodeJSON bs).res = .error (.err .invalid) ∨ (decodeJSON bs).res = .error (.err .unsupported) := by
+  simp only [decodeJSON]
+  cases h : unmarshalGeometry bs with
+  | none => exact .inr (.inl rfl)
+  | some tc =>
+    obtain ⟨typ, c⟩ := tc
+    rcases C07_json_guards typ c with h | h | h
+    · exact .inl h
+    · exact .inr (.inr (.inl h))
+    · exact .inr (.inr (.inr h))
+
+
+/-- **C07_json_alloc.** For EVERY type string and EVERY Go value `c` in `Coordinates`, the decoder
+requests at most `48 · nodes(c)` bytes: it only mirrors the arrays it is given (≤ 24 bytes per node
+while type-checking the tree, ≤ 24 per node while building paths). `json.Unmarshal`'s own tree is
+proportional to the text by the library contract and is measured by the correspondence run. -/
+theorem C07_json_alloc (typ : String) (c : GoVal) :
+    (fromGeoJSON (some (typ, c))).cost ≤ 48 * c.size ∧
+    Spec.allocOK .value c.size (fromGeoJSON (some (typ, c))).cost = true := by
+  have key : (fromGeoJSON (some (typ, c))).cost ≤ 48 * c.size := doFrom_cost typ c
+  refine ⟨key, ?_⟩
+  simp only [Spec.allocOK, Spec.allocBound]
+  exact decide_eq_true (by omega)
+
+/-- the nil pointer costs nothing -/
+example : (fromGeoJSON none).cost = 0 := rfl
 
 end GeomV.C07
